@@ -58,7 +58,8 @@ def run(R):
         has_prefix = lambda x: term_contains(x, lambda y: is_call(y, name='get_u32'))
         for bb in sorted(b.live_blocks()):
             lt = limit_test(b, bb, has_prefix)
-            if lt is not None:
+            # `buf.remaining() < len` asks whether the payload has arrived; the limit test compares the length with something else
+            if lt is not None and not (is_call(strip_refs(lt['limit'])) and strip_refs(lt['limit'])[3] in ('remaining', 'len')):
                 test = (bb, lt)
         if test is None:
             raise CheckError('UNRECOGNISED: no comparison of the prefix length with a limit in decode_chunk')
